@@ -129,11 +129,14 @@ impl Database {
                                 value = change.value
                             )
                             .to_string();
-                            self.send_message_to_arbiter_client(resolve_message.clone());
+                            // The record is stored before the notice goes out: an arbiter that registers
+                            // in between is sent the record, one that registered before is sent the
+                            // notice (sent first, an arbiter registering in between got neither)
                             let conflitct_key = get_conflict_watch_key(&change);
                             let conflict_register_change =
-                                Change::new(conflitct_key.clone(), resolve_message, -1);
+                                Change::new(conflitct_key.clone(), resolve_message.clone(), -1);
                             self.set_value(&conflict_register_change);
+                            self.send_message_to_arbiter_client(resolve_message);
 
                             replicate_change(&conflict_register_change, &self, &dbs);
                             // Replicate
